@@ -30,6 +30,8 @@ func main() {
 		runC09(r)
 	case "C17":
 		runC17(r)
+	case "C14":
+		runC14(r)
 	default:
 		fmt.Println("chainmc: unknown property", os.Args[1])
 		os.Exit(2)
